@@ -1,3 +1,219 @@
 // harnesses for crate::metadata (child module: sees private items)
 #![allow(dead_code, unused_imports)]
 use super::*;
+use crate::verif_k::bits::BitBuf;
+use crate::verif_k::spec;
+use crate::verif_k::{vk_assert, vk_undecided};
+
+// ------------------------------------------------------------------ STREAMINFO (RFC 9639 §8.2)
+//
+// contract, all 272-bit strings:  from_reader => Ok(s) with every field equal to its bit slice
+//   (16/16/24/24/20/3/5/36/128 bits; frame sizes and total 0 => None, bits-per-sample = code + 1,
+//   channels = code + 1, all-zero MD5 => None);  to_writer(s) reproduces the 272 bits exactly; never panics
+#[kani::proof]
+#[kani::unwind(18)]
+pub(crate) fn k_streaminfo_roundtrip_all_bits() {
+    let mut b: BitBuf<5> = BitBuf::any();
+    b.len = 272;
+    let orig = b.clone();
+    let s = match <Streaminfo as FromBitStream>::from_reader(&mut b) {
+        Ok(s) => s,
+        Err(_) => { vk_assert!(false, "STREAMINFO parse of 34 available bytes failed"); return; }
+    };
+    vk_assert!(b.pos == 272, "STREAMINFO is exactly 34 bytes");
+    vk_assert!(s.minimum_block_size as u64 == orig.peek(0, 16) && s.maximum_block_size as u64 == orig.peek(16, 16), "block sizes are the first two 16-bit fields");
+    vk_assert!(s.minimum_frame_size.map_or(0, |v| v.get()) as u64 == orig.peek(32, 24) && s.maximum_frame_size.map_or(0, |v| v.get()) as u64 == orig.peek(56, 24), "frame sizes: 24 bits each, 0 = unknown");
+    vk_assert!(s.sample_rate as u64 == orig.peek(80, 20), "20-bit sample rate");
+    vk_assert!(s.channels.get() as u64 == orig.peek(100, 3) + 1, "3-bit channel count minus one");
+    vk_assert!(u32::from(s.bits_per_sample) as u64 == orig.peek(103, 5) + 1, "5-bit bits-per-sample minus one");
+    vk_assert!(s.total_samples.map_or(0, |v| v.get()) == orig.peek(108, 36), "36-bit total samples, 0 = unknown");
+    let md5_hi = orig.peek(144, 64);
+    let md5_lo = orig.peek(208, 64);
+    vk_assert!(s.md5.is_none() == (md5_hi == 0 && md5_lo == 0), "all-zero MD5 means not computed");
+    if let Some(m) = s.md5 {
+        vk_assert!(u64::from_be_bytes([m[0], m[1], m[2], m[3], m[4], m[5], m[6], m[7]]) == md5_hi
+            && u64::from_be_bytes([m[8], m[9], m[10], m[11], m[12], m[13], m[14], m[15]]) == md5_lo, "MD5 bytes in stream order");
+    }
+    let mut out: BitBuf<5> = BitBuf::empty();
+    let w = <Streaminfo as ToBitStream>::to_writer(&s, &mut out);
+    vk_assert!(w.is_ok() && out.len == 272, "STREAMINFO serialises to exactly 34 bytes");
+    vk_assert!(out.limbs[0] == orig.limbs[0] && out.limbs[1] == orig.limbs[1] && out.limbs[2] == orig.limbs[2]
+        && out.limbs[3] == orig.limbs[3] && out.peek(256, 16) == orig.peek(256, 16), "parse then serialise reproduces the block byte for byte");
+    vk_assert!(s.bytes() == Some(BlockSize(34)), "reported size is the serialised size");
+}
+
+// ------------------------------------------------------------------ block header, seek point
+#[kani::proof]
+#[kani::unwind(4)]
+pub(crate) fn k_block_header_roundtrip_all_bits() {
+    let mut b: BitBuf<1> = BitBuf::any();
+    b.len = 32;
+    let orig = b.clone();
+    let r = <BlockHeader as FromBitStream>::from_reader(&mut b);
+    let ty = orig.peek(1, 7);
+    match r {
+        Ok(h) => {
+            vk_assert!(ty <= 6, "reserved / invalid block type accepted");
+            vk_assert!(h.last == (orig.peek(0, 1) == 1) && h.block_type as u64 == ty && h.size.get() as u64 == orig.peek(8, 24), "last flag, 7-bit type, 24-bit size");
+            let mut out: BitBuf<1> = BitBuf::empty();
+            vk_assert!(<BlockHeader as ToBitStream>::to_writer(&h, &mut out).is_ok() && out.len == 32 && out.peek(0, 32) == orig.peek(0, 32), "header serialises back to the same 4 bytes");
+        }
+        Err(_) => { vk_assert!(ty > 6, "valid block header rejected"); }
+    }
+}
+
+#[kani::proof]
+#[kani::unwind(10)]
+pub(crate) fn k_seekpoint_roundtrip_all_bits() {
+    let mut b: BitBuf<3> = BitBuf::any();
+    b.len = 144;
+    let orig = b.clone();
+    let p = match <SeekPoint as FromBitStream>::from_reader(&mut b) {
+        Ok(p) => p,
+        Err(_) => { vk_assert!(false, "seek point parse of 18 available bytes failed"); return; }
+    };
+    vk_assert!(b.pos == 144, "a seek point is exactly 18 bytes");
+    let so = orig.peek(0, 64);
+    match &p {
+        SeekPoint::Placeholder => vk_assert!(so == u64::MAX, "placeholder iff sample number is all ones"),
+        SeekPoint::Defined { sample_offset, byte_offset, frame_samples } => {
+            vk_assert!(so != u64::MAX && *sample_offset == so && *byte_offset == orig.peek(64, 64) && *frame_samples as u64 == orig.peek(128, 16), "64-bit sample, 64-bit offset, 16-bit length");
+        }
+    }
+    let mut out: BitBuf<3> = BitBuf::empty();
+    vk_assert!(<SeekPoint as ToBitStream>::to_writer(&p, &mut out).is_ok() && out.len == 144, "a seek point serialises to 18 bytes");
+    if so != u64::MAX {
+        vk_assert!(out.limbs[0] == orig.limbs[0] && out.limbs[1] == orig.limbs[1] && out.peek(128, 16) == orig.peek(128, 16), "defined point reproduced byte for byte");
+    } else {
+        vk_assert!(out.limbs[0] == u64::MAX, "placeholder keeps the all-ones sample number");
+    }
+}
+
+// contract SeekPoint build -> parse: every point that can be serialised parses back to itself
+#[kani::proof]
+#[kani::unwind(10)]
+pub(crate) fn k_seekpoint_build_parse() {
+    let p = if kani::any() { SeekPoint::Placeholder } else { SeekPoint::Defined { sample_offset: kani::any(), byte_offset: kani::any(), frame_samples: kani::any() } };
+    let mut out: BitBuf<3> = BitBuf::empty();
+    let w = <SeekPoint as ToBitStream>::to_writer(&p, &mut out);
+    if w.is_ok() {
+        out.rewind();
+        let q = <SeekPoint as FromBitStream>::from_reader(&mut out);
+        vk_assert!(matches!(q, Ok(ref q) if *q == p), "a seek point that serialises must parse back to the same point");
+    }
+}
+
+// adjacency rule shared by reader (Contiguous) and writer: strictly ascending defined points, placeholders only at the end
+#[kani::proof]
+pub(crate) fn k_seekpoint_is_next() {
+    use contiguous::Adjacent;
+    let mk = || if kani::any() { SeekPoint::Placeholder } else { SeekPoint::Defined { sample_offset: kani::any(), byte_offset: kani::any(), frame_samples: kani::any() } };
+    let prev = mk();
+    let next = mk();
+    let ok = next.is_next(&prev);
+    let want = match (&prev, &next) {
+        (_, SeekPoint::Placeholder) => true,
+        (SeekPoint::Placeholder, SeekPoint::Defined { .. }) => false,
+        (SeekPoint::Defined { sample_offset: a, .. }, SeekPoint::Defined { sample_offset: b, .. }) => b > a,
+    };
+    vk_assert!(ok == want && next.valid_first(), "seek points: ascending sample numbers, placeholders only after defined points");
+}
+
+// ------------------------------------------------------------------ sizes (BlockSize / BlockBits arithmetic, C10 / C11)
+#[kani::proof]
+pub(crate) fn k_blocksize_arith() {
+    let a: u32 = kani::any();
+    let b: u32 = kani::any();
+    kani::assume(a <= BlockSize::MAX && b <= BlockSize::MAX);
+    let (x, y) = (BlockSize(a), BlockSize(b));
+    match x.checked_add(y) {
+        Some(s) => vk_assert!(s.get() == a + b && a + b <= BlockSize::MAX, "checked_add: exact sum within 24 bits"),
+        None => vk_assert!(a as u64 + b as u64 > BlockSize::MAX as u64, "checked_add fails only beyond 24 bits"),
+    }
+    match x.checked_sub(y) {
+        Some(s) => vk_assert!(a >= b && s.get() == a - b, "checked_sub: exact difference"),
+        None => vk_assert!(a < b, "checked_sub fails only below zero"),
+    }
+    let v: u64 = kani::any();
+    vk_assert!(BlockSize::try_from(v).is_ok() == (v <= BlockSize::MAX as u64), "BlockSize holds exactly the 24-bit values");
+    let w: u32 = kani::any();
+    vk_assert!(BlockSize::try_from(w).is_ok() == (w <= BlockSize::MAX), "BlockSize holds exactly the 24-bit values");
+    let p = Padding { size: x };
+    vk_assert!(p.bytes() == Some(x), "PADDING payload size is its size field");
+    vk_assert!(p.total_size().map(|s| s.get()) == if a + 4 <= BlockSize::MAX { Some(a + 4) } else { None }, "total size adds the 4 header bytes");
+}
+
+#[kani::proof]
+pub(crate) fn k_blockbits_counter() {
+    use bitstream_io::write::Counter;
+    let a: u32 = kani::any();
+    let b: u32 = kani::any();
+    kani::assume(a <= BlockBits::MAX);
+    let mut c = BlockBits(a);
+    let r = c.checked_add_assign(BlockBits(b));
+    vk_assert!(r.is_ok() == (a as u64 + b as u64 <= BlockBits::MAX as u64), "bit counter overflows exactly beyond a 24-bit byte count");
+    if r.is_ok() { vk_assert!(c.0 == a + b, "bit counter adds exactly"); }
+    let m = BlockBits(a).checked_mul(BlockBits(b));
+    vk_assert!(m.is_ok() == (a as u64 * b as u64 <= BlockBits::MAX as u64), "bit counter multiplication overflows exactly beyond the limit");
+    vk_assert!(BlockBits::try_from(b).is_ok() == (b <= BlockBits::MAX), "bit counter construction is range checked");
+}
+
+// ------------------------------------------------------------------ accessors (C12)
+#[kani::proof]
+pub(crate) fn k_metadata_accessors() {
+    // a division by a symbolic 64-bit rate does not finish; the rate ranges over representative values incl. 0
+    let rate: u32 = match kani::any::<u8>() % 5 { 0 => 0, 1 => 1, 2 => 44100, 3 => 96000, _ => (1 << 20) - 1 };
+    let total: u64 = kani::any();
+    kani::assume(total < (1 << 36));
+    let ch: u8 = kani::any();
+    kani::assume(ch >= 1 && ch <= 8);
+    let bps: u32 = kani::any();
+    kani::assume(bps >= 1 && bps <= 32);
+    let s = Streaminfo { minimum_block_size: kani::any(), maximum_block_size: kani::any(), minimum_frame_size: None, maximum_frame_size: None,
+        sample_rate: rate, channels: NonZero::new(ch).unwrap(), bits_per_sample: SignedBitCount::<32>::try_from(bps).unwrap(),
+        total_samples: NonZero::new(total), md5: None };
+    let len = s.decoded_len();
+    vk_assert!(len == if total == 0 { None } else { Some(total * ch as u64 * bps.div_ceil(8) as u64) }, "decoded_len = samples x channels x bytes per sample");
+    let d = s.duration();
+    if total != 0 && rate != 0 {
+        let d = d.unwrap();
+        vk_assert!(d.as_secs() == total / rate as u64, "duration seconds = samples / rate");
+    } else {
+        vk_assert!(d.is_none(), "no duration without a sample count or with a zero sample rate");
+    }
+    let m = s.channel_mask();
+    vk_assert!(m.mask.count_ones() == ch as u32, "default channel mask has one bit per channel");
+}
+
+// ------------------------------------------------------------------ picture sniffers (C12): arbitrary bytes never panic
+#[kani::proof]
+#[kani::unwind(40)]
+pub(crate) fn k_picture_png_total() {
+    let mut data: [u8; 33] = kani::any();
+    data[0] = 0x89; data[1] = 0x50; data[2] = 0x4E; data[3] = 0x47; data[4] = 0x0D; data[5] = 0x0A; data[6] = 0x1A; data[7] = 0x0A;
+    let r = PictureMetrics::try_png(&data);
+    if let Ok(m) = r {
+        let depth = data[24] as u32;
+        let want = match data[25] { 0 => depth, 2 => depth * 3, 4 => depth * 2, 6 => depth * 4, _ => 0 };
+        vk_assert!(data[25] == 3 || m.color_depth == want, "PNG colour depth = bit depth x channels");
+        vk_assert!(m.width == u32::from_be_bytes([data[16], data[17], data[18], data[19]]), "PNG width from IHDR");
+    }
+}
+
+#[kani::proof]
+#[kani::unwind(12)]
+pub(crate) fn k_picture_jpeg_total() {
+    let mut data: [u8; 11] = kani::any();
+    data[0] = 0xFF; data[1] = 0xD8;
+    let r = PictureMetrics::try_jpeg(&data);
+    if let Ok(m) = r {
+        vk_assert!(m.color_depth <= 255 * 255, "JPEG colour depth = precision x components");
+    }
+}
+
+#[kani::proof]
+#[kani::unwind(16)]
+pub(crate) fn k_picture_gif_total() {
+    let data: [u8; 11] = kani::any();
+    let _ = PictureMetrics::try_gif(&data);
+}
